@@ -46,8 +46,7 @@ func c11Seq(k int) {
 		} else {
 			e.doEvent(ev)
 		}
-		zzvrt.RunSpawned("CloseConnection$1")
-		zzvrt.RunSpawned("handleState$1")
+		zzvrt.RunSpawnedExcept("setHandshakeTimer")
 		n := e.log.count(evClosed)
 		zzvrt.Assert(n <= 1, "C11.end-reported-twice")
 		if e.w.closed {
